@@ -5,7 +5,7 @@ From Coq Require Import ZArith List Bool Reals PrimFloat.
 From FT.lib Require Import Num Arr ArrLemmas NumArr.
 From FT.gen Require Import Common Interp2d Interp3d FteikCommon Ray2d Ray3d.
 From FT.proofs Require Import NumFLaws Ray2dProofs.
-From FT.proofs Require Ray3dProofs RaySafety2d RaySafety3d RaySafetyExtra RayStep.
+From FT.proofs Require Ray3dProofs RaySafety2d RaySafety3d RaySafetyExtra RayStep RayBudget ApiGenEq.
 Import ListNotations.
 Open Scope Z_scope.
 
@@ -185,6 +185,1008 @@ Theorem C10_last_segment_longer_than_a_step_witness :
          RayStep.vdist2 ray 1 2 = 2%R /\ ~ (RayStep.vdist2 ray 1 2 <= 1)%R.
 Proof. exact @RayStep.last_segment_2d_refuted. Qed.
 
+(* every numeric instance, both modes: if the core run with budget M returns count c >= 1 then every budget M' > c returns the SAME count and the same stored rows - the budget only decides between reporting exhaustion and returning the ray *)
+Theorem C10_budget_does_not_change_the_ray_2d :
+  forall (T : Type) (H : Num T) (z x zgrad xgrad : arr T) (zend xend zsrc xsrc stepsize : T) 
+         (hg : bool) (M M' : Z) (fuel fuel' : nat) (ray : arr T) (c : Z),
+       u_ray2d_core_v fuel z x zgrad xgrad zend xend zsrc xsrc stepsize M hg = Ok (ray, c) ->
+       1 <= c ->
+       c < M' ->
+       (fuel <= fuel')%nat \/ RayBudget.enough2 z x stepsize M' fuel' ->
+       exists ray' : arr T,
+         u_ray2d_core_v fuel' z x zgrad xgrad zend xend zsrc xsrc stepsize M' hg = Ok (ray', c) /\
+         shape ray' = [M'; 2] /\
+         (forall k j : Z, 0 <= k < Z.min M M' -> 0 <= j < 2 -> get (nofZ 0) ray' [k; j] = get (nofZ 0) ray [k; j]).
+Proof. exact @RayBudget.ray2d_budget_independent. Qed.
+
+(* and every budget M'' <= c returns the sentinel -2 (RuntimeError in the wrapper): never a ray cut short and closed with a jump to the source *)
+Theorem C10_budget_at_most_count_reports_exhaustion_2d :
+  forall (T : Type) (H : Num T) (z x zgrad xgrad : arr T) (zend xend zsrc xsrc stepsize : T) 
+         (hg : bool) (M M'' : Z) (fuel fuel'' : nat) (ray : arr T) (c : Z),
+       u_ray2d_core_v fuel z x zgrad xgrad zend xend zsrc xsrc stepsize M hg = Ok (ray, c) ->
+       1 <= c ->
+       M'' <= c ->
+       (fuel <= fuel'')%nat \/ RayBudget.enough2 z x stepsize M'' fuel'' ->
+       exists ray'' : arr T, u_ray2d_core_v fuel'' z x zgrad xgrad zend xend zsrc xsrc stepsize M'' hg = Ok (ray'', -2).
+Proof. exact @RayBudget.ray2d_budget_exhausted. Qed.
+
+(* entry point `ray2d` (single end point): a returned polyline of c+1 rows is returned unchanged for every budget > c, and every budget <= c raises RuntimeError *)
+Theorem C10_public_ray_budget_characterisation_2d :
+  forall (T : Type) (H : Num T) (z x zgrad xgrad p src : arr T) (stepsize : T) (hg : bool) 
+         (M : Z) (fuel : nat) (r : arr T),
+       ray2d_1 fuel z x zgrad xgrad p src stepsize M hg = Ok r ->
+       exists c : Z,
+         1 <= c < M /\
+         shape r = [c + 1; 2] /\
+         (forall (M' : Z) (fuel' : nat),
+          c < M' ->
+          (fuel <= fuel')%nat \/ RayBudget.enough2 z x stepsize M' fuel' ->
+          ray2d_1 fuel' z x zgrad xgrad p src stepsize M' hg = Ok r) /\
+         (forall (M'' : Z) (fuel'' : nat),
+          M'' <= c ->
+          (fuel <= fuel'')%nat \/ RayBudget.enough2 z x stepsize M'' fuel'' ->
+          ray2d_1 fuel'' z x zgrad xgrad p src stepsize M'' hg = Raise RuntimeError).
+Proof. exact @RayBudget.ray2d_1_budget. Qed.
+
+(* 3D *)
+Theorem C10_budget_does_not_change_the_ray_3d :
+  forall (T : Type) (H : Num T) (z x y zgrad xgrad ygrad : arr T) (zend xend yend zsrc xsrc ysrc stepsize : T)
+         (hg : bool) (M M' : Z) (fuel fuel' : nat) (ray : arr T) (c : Z),
+       u_ray3d_core_v fuel z x y zgrad xgrad ygrad zend xend yend zsrc xsrc ysrc stepsize M hg = Ok (ray, c) ->
+       1 <= c ->
+       c < M' ->
+       (fuel <= fuel')%nat \/ RayBudget.enough3 z x y stepsize M' fuel' ->
+       exists ray' : arr T,
+         u_ray3d_core_v fuel' z x y zgrad xgrad ygrad zend xend yend zsrc xsrc ysrc stepsize M' hg = Ok (ray', c) /\
+         shape ray' = [M'; 3] /\
+         (forall k j : Z, 0 <= k < Z.min M M' -> 0 <= j < 3 -> get (nofZ 0) ray' [k; j] = get (nofZ 0) ray [k; j]).
+Proof. exact @RayBudget.ray3d_budget_independent. Qed.
+
+(* 3D *)
+Theorem C10_budget_at_most_count_reports_exhaustion_3d :
+  forall (T : Type) (H : Num T) (z x y zgrad xgrad ygrad : arr T) (zend xend yend zsrc xsrc ysrc stepsize : T)
+         (hg : bool) (M M'' : Z) (fuel fuel'' : nat) (ray : arr T) (c : Z),
+       u_ray3d_core_v fuel z x y zgrad xgrad ygrad zend xend yend zsrc xsrc ysrc stepsize M hg = Ok (ray, c) ->
+       1 <= c ->
+       M'' <= c ->
+       (fuel <= fuel'')%nat \/ RayBudget.enough3 z x y stepsize M'' fuel'' ->
+       exists ray'' : arr T,
+         u_ray3d_core_v fuel'' z x y zgrad xgrad ygrad zend xend yend zsrc xsrc ysrc stepsize M'' hg = Ok (ray'', -2).
+Proof. exact @RayBudget.ray3d_budget_exhausted. Qed.
+
+(* 3D *)
+Theorem C10_public_ray_budget_characterisation_3d :
+  forall (T : Type) (H : Num T) (z x y zgrad xgrad ygrad p src : arr T) (stepsize : T) 
+         (hg : bool) (M : Z) (fuel : nat) (r : arr T),
+       ray3d_1 fuel z x y zgrad xgrad ygrad p src stepsize M hg = Ok r ->
+       exists c : Z,
+         1 <= c < M /\
+         shape r = [c + 1; 3] /\
+         (forall (M' : Z) (fuel' : nat),
+          c < M' ->
+          (fuel <= fuel')%nat \/ RayBudget.enough3 z x y stepsize M' fuel' ->
+          ray3d_1 fuel' z x y zgrad xgrad ygrad p src stepsize M' hg = Ok r) /\
+         (forall (M'' : Z) (fuel'' : nat),
+          M'' <= c ->
+          (fuel <= fuel'')%nat \/ RayBudget.enough3 z x y stepsize M'' fuel'' ->
+          ray3d_1 fuel'' z x y zgrad xgrad ygrad p src stepsize M'' hg = Raise RuntimeError).
+Proof. exact @RayBudget.ray3d_1_budget. Qed.
+
+(* API layer, extracted from _grid.py on every run (gen/ApiGen.v): the default step (smallest spacing; forced in grid-honouring mode) and the default budget int(2 * diagonal / step) are the hand model's (coq/model/Api.v), every numeric instance *)
+Theorem C10_raytrace_defaults_2d :
+  forall (T : Type) (N : Num T) (nz nx : Z) (dz dx : T) (stepsize : option T) (max_step : option Z) (honor : bool),
+       ApiGen.raytrace_defaults_2d nz nx dz dx stepsize max_step honor =
+       (Api.ray_stepsize [dz; dx] stepsize honor,
+        Api.ray_max_step [nz; nx] [dz; dx] (Api.ray_stepsize [dz; dx] stepsize honor) max_step).
+Proof. exact @ApiGenEq.gen_raytrace_defaults_2d_eq. Qed.
+
+(* 3D *)
+Theorem C10_raytrace_defaults_3d :
+  forall (T : Type) (N : Num T) (nz nx ny : Z) (dz dx dy : T) (stepsize : option T) (max_step : option Z)
+         (honor : bool),
+       ApiGen.raytrace_defaults_3d nz nx ny dz dx dy stepsize max_step honor =
+       (Api.ray_stepsize [dz; dx; dy] stepsize honor,
+        Api.ray_max_step [nz; nx; ny] [dz; dx; dy] (Api.ray_stepsize [dz; dx; dy] stepsize honor) max_step).
+Proof. exact @ApiGenEq.gen_raytrace_defaults_3d_eq. Qed.
+
+(* which attribute is handed to which kernel parameter (axes, gradient components in order Z, X, end points, source, step, budget, mode) *)
+Theorem C10_raytrace_call_wiring_2d :
+  ApiGen.raytrace_2d_call =
+       (String.String (Ascii.Ascii false true false false true true true false)
+          (String.String (Ascii.Ascii true false false false false true true false)
+             (String.String (Ascii.Ascii true false false true true true true false)
+                (String.String (Ascii.Ascii false true false false true true false false)
+                   (String.String (Ascii.Ascii false false true false false true true false) String.EmptyString)))),
+        [String.String (Ascii.Ascii true true false false true true true false)
+           (String.String (Ascii.Ascii true false true false false true true false)
+              (String.String (Ascii.Ascii false false true true false true true false)
+                 (String.String (Ascii.Ascii false true true false false true true false)
+                    (String.String (Ascii.Ascii false true true true false true false false)
+                       (String.String (Ascii.Ascii false true false true true true true false)
+                          (String.String (Ascii.Ascii true false false false false true true false)
+                             (String.String (Ascii.Ascii false false false true true true true false)
+                                (String.String (Ascii.Ascii true false false true false true true false)
+                                   (String.String (Ascii.Ascii true true false false true true true false)
+                                      String.EmptyString)))))))));
+         String.String (Ascii.Ascii true true false false true true true false)
+           (String.String (Ascii.Ascii true false true false false true true false)
+              (String.String (Ascii.Ascii false false true true false true true false)
+                 (String.String (Ascii.Ascii false true true false false true true false)
+                    (String.String (Ascii.Ascii false true true true false true false false)
+                       (String.String (Ascii.Ascii false false false true true true true false)
+                          (String.String (Ascii.Ascii true false false false false true true false)
+                             (String.String (Ascii.Ascii false false false true true true true false)
+                                (String.String (Ascii.Ascii true false false true false true true false)
+                                   (String.String (Ascii.Ascii true true false false true true true false)
+                                      String.EmptyString)))))))));
+         String.String (Ascii.Ascii true true true false false true true false)
+           (String.String (Ascii.Ascii false true false false true true true false)
+              (String.String (Ascii.Ascii true false false false false true true false)
+                 (String.String (Ascii.Ascii false false true false false true true false)
+                    (String.String (Ascii.Ascii true false false true false true true false)
+                       (String.String (Ascii.Ascii true false true false false true true false)
+                          (String.String (Ascii.Ascii false true true true false true true false)
+                             (String.String (Ascii.Ascii false false true false true true true false)
+                                (String.String (Ascii.Ascii true true false true true false true false)
+                                   (String.String (Ascii.Ascii false false false false true true false false)
+                                      (String.String (Ascii.Ascii true false true true true false true false)
+                                         (String.String (Ascii.Ascii false true true true false true false false)
+                                            (String.String (Ascii.Ascii true true true false false true true false)
+                                               (String.String (Ascii.Ascii false true false false true true true false)
+                                                  (String.String
+                                                     (Ascii.Ascii true false false true false true true false)
+                                                     (String.String
+                                                        (Ascii.Ascii false false true false false true true false)
+                                                        String.EmptyString)))))))))))))));
+         String.String (Ascii.Ascii true true true false false true true false)
+           (String.String (Ascii.Ascii false true false false true true true false)
+              (String.String (Ascii.Ascii true false false false false true true false)
+                 (String.String (Ascii.Ascii false false true false false true true false)
+                    (String.String (Ascii.Ascii true false false true false true true false)
+                       (String.String (Ascii.Ascii true false true false false true true false)
+                          (String.String (Ascii.Ascii false true true true false true true false)
+                             (String.String (Ascii.Ascii false false true false true true true false)
+                                (String.String (Ascii.Ascii true true false true true false true false)
+                                   (String.String (Ascii.Ascii true false false false true true false false)
+                                      (String.String (Ascii.Ascii true false true true true false true false)
+                                         (String.String (Ascii.Ascii false true true true false true false false)
+                                            (String.String (Ascii.Ascii true true true false false true true false)
+                                               (String.String (Ascii.Ascii false true false false true true true false)
+                                                  (String.String
+                                                     (Ascii.Ascii true false false true false true true false)
+                                                     (String.String
+                                                        (Ascii.Ascii false false true false false true true false)
+                                                        String.EmptyString)))))))))))))));
+         String.String (Ascii.Ascii false true true true false true true false)
+           (String.String (Ascii.Ascii false false false false true true true false)
+              (String.String (Ascii.Ascii false true true true false true false false)
+                 (String.String (Ascii.Ascii true false false false false true true false)
+                    (String.String (Ascii.Ascii true true false false true true true false)
+                       (String.String (Ascii.Ascii true false false false false true true false)
+                          (String.String (Ascii.Ascii false true false false true true true false)
+                             (String.String (Ascii.Ascii false true false false true true true false)
+                                (String.String (Ascii.Ascii true false false false false true true false)
+                                   (String.String (Ascii.Ascii true false false true true true true false)
+                                      (String.String (Ascii.Ascii false false false true false true false false)
+                                         (String.String (Ascii.Ascii false false false false true true true false)
+                                            (String.String (Ascii.Ascii true true true true false true true false)
+                                               (String.String (Ascii.Ascii true false false true false true true false)
+                                                  (String.String
+                                                     (Ascii.Ascii false true true true false true true false)
+                                                     (String.String
+                                                        (Ascii.Ascii false false true false true true true false)
+                                                        (String.String
+                                                           (Ascii.Ascii true true false false true true true false)
+                                                           (String.String
+                                                              (Ascii.Ascii false false true true false true false false)
+                                                              (String.String
+                                                                 (Ascii.Ascii false false false false false true false
+                                                                    false)
+                                                                 (String.String
+                                                                    (Ascii.Ascii false false true false false true true
+                                                                       false)
+                                                                    (String.String
+                                                                       (Ascii.Ascii false false true false true true
+                                                                          true false)
+                                                                       (String.String
+                                                                          (Ascii.Ascii true false false true true true
+                                                                             true false)
+                                                                          (String.String
+                                                                             (Ascii.Ascii false false false false true
+                                                                                true true false)
+                                                                             (String.String
+                                                                                (Ascii.Ascii true false true false
+                                                                                   false true true false)
+                                                                                (String.String
+                                                                                   (Ascii.Ascii true false true true
+                                                                                      true true false false)
+                                                                                   (String.String
+                                                                                      (Ascii.Ascii false true true true
+                                                                                         false true true false)
+                                                                                      (String.String
+                                                                                         (Ascii.Ascii false false false
+                                                                                          false true true true false)
+                                                                                         (String.String
+                                                                                          (Ascii.Ascii false true true
+                                                                                          true false true false false)
+                                                                                          (String.String
+                                                                                          (Ascii.Ascii false true true
+                                                                                          false false true true false)
+                                                                                          (String.String
+                                                                                          (Ascii.Ascii false false true
+                                                                                          true false true true false)
+                                                                                          (String.String
+                                                                                          (Ascii.Ascii true true true
+                                                                                          true false true true false)
+                                                                                          (String.String
+                                                                                          (Ascii.Ascii true false false
+                                                                                          false false true true false)
+                                                                                          (String.String
+                                                                                          (Ascii.Ascii false false true
+                                                                                          false true true true false)
+                                                                                          (String.String
+                                                                                          (Ascii.Ascii false true true
+                                                                                          false true true false false)
+                                                                                          (String.String
+                                                                                          (Ascii.Ascii false false true
+                                                                                          false true true false false)
+                                                                                          (String.String
+                                                                                          (Ascii.Ascii true false false
+                                                                                          true false true false false)
+                                                                                          String.EmptyString)))))))))))))))))))))))))))))))))));
+         String.String (Ascii.Ascii true true false false true true true false)
+           (String.String (Ascii.Ascii true false true false false true true false)
+              (String.String (Ascii.Ascii false false true true false true true false)
+                 (String.String (Ascii.Ascii false true true false false true true false)
+                    (String.String (Ascii.Ascii false true true true false true false false)
+                       (String.String (Ascii.Ascii true true true true true false true false)
+                          (String.String (Ascii.Ascii true true false false true true true false)
+                             (String.String (Ascii.Ascii true true true true false true true false)
+                                (String.String (Ascii.Ascii true false true false true true true false)
+                                   (String.String (Ascii.Ascii false true false false true true true false)
+                                      (String.String (Ascii.Ascii true true false false false true true false)
+                                         (String.String (Ascii.Ascii true false true false false true true false)
+                                            String.EmptyString)))))))))));
+         String.String (Ascii.Ascii true true false false true true true false)
+           (String.String (Ascii.Ascii false false true false true true true false)
+              (String.String (Ascii.Ascii true false true false false true true false)
+                 (String.String (Ascii.Ascii false false false false true true true false)
+                    (String.String (Ascii.Ascii true true false false true true true false)
+                       (String.String (Ascii.Ascii true false false true false true true false)
+                          (String.String (Ascii.Ascii false true false true true true true false)
+                             (String.String (Ascii.Ascii true false true false false true true false)
+                                String.EmptyString)))))));
+         String.String (Ascii.Ascii true false true true false true true false)
+           (String.String (Ascii.Ascii true false false false false true true false)
+              (String.String (Ascii.Ascii false false false true true true true false)
+                 (String.String (Ascii.Ascii true true true true true false true false)
+                    (String.String (Ascii.Ascii true true false false true true true false)
+                       (String.String (Ascii.Ascii false false true false true true true false)
+                          (String.String (Ascii.Ascii true false true false false true true false)
+                             (String.String (Ascii.Ascii false false false false true true true false)
+                                String.EmptyString)))))));
+         String.String (Ascii.Ascii false false false true false true true false)
+           (String.String (Ascii.Ascii true true true true false true true false)
+              (String.String (Ascii.Ascii false true true true false true true false)
+                 (String.String (Ascii.Ascii true true true true false true true false)
+                    (String.String (Ascii.Ascii false true false false true true true false)
+                       (String.String (Ascii.Ascii true true true true true false true false)
+                          (String.String (Ascii.Ascii true true true false false true true false)
+                             (String.String (Ascii.Ascii false true false false true true true false)
+                                (String.String (Ascii.Ascii true false false true false true true false)
+                                   (String.String (Ascii.Ascii false false true false false true true false)
+                                      String.EmptyString)))))))))]) /\
+       ApiGen.raytrace_2d_binding =
+       [(String.String (Ascii.Ascii false true false true true true true false) String.EmptyString,
+         String.String (Ascii.Ascii true true false false true true true false)
+           (String.String (Ascii.Ascii true false true false false true true false)
+              (String.String (Ascii.Ascii false false true true false true true false)
+                 (String.String (Ascii.Ascii false true true false false true true false)
+                    (String.String (Ascii.Ascii false true true true false true false false)
+                       (String.String (Ascii.Ascii false true false true true true true false)
+                          (String.String (Ascii.Ascii true false false false false true true false)
+                             (String.String (Ascii.Ascii false false false true true true true false)
+                                (String.String (Ascii.Ascii true false false true false true true false)
+                                   (String.String (Ascii.Ascii true true false false true true true false)
+                                      String.EmptyString))))))))));
+        (String.String (Ascii.Ascii false false false true true true true false) String.EmptyString,
+         String.String (Ascii.Ascii true true false false true true true false)
+           (String.String (Ascii.Ascii true false true false false true true false)
+              (String.String (Ascii.Ascii false false true true false true true false)
+                 (String.String (Ascii.Ascii false true true false false true true false)
+                    (String.String (Ascii.Ascii false true true true false true false false)
+                       (String.String (Ascii.Ascii false false false true true true true false)
+                          (String.String (Ascii.Ascii true false false false false true true false)
+                             (String.String (Ascii.Ascii false false false true true true true false)
+                                (String.String (Ascii.Ascii true false false true false true true false)
+                                   (String.String (Ascii.Ascii true true false false true true true false)
+                                      String.EmptyString))))))))));
+        (String.String (Ascii.Ascii false true false true true true true false)
+           (String.String (Ascii.Ascii true true true false false true true false)
+              (String.String (Ascii.Ascii false true false false true true true false)
+                 (String.String (Ascii.Ascii true false false false false true true false)
+                    (String.String (Ascii.Ascii false false true false false true true false) String.EmptyString)))),
+         String.String (Ascii.Ascii true true true false false true true false)
+           (String.String (Ascii.Ascii false true false false true true true false)
+              (String.String (Ascii.Ascii true false false false false true true false)
+                 (String.String (Ascii.Ascii false false true false false true true false)
+                    (String.String (Ascii.Ascii true false false true false true true false)
+                       (String.String (Ascii.Ascii true false true false false true true false)
+                          (String.String (Ascii.Ascii false true true true false true true false)
+                             (String.String (Ascii.Ascii false false true false true true true false)
+                                (String.String (Ascii.Ascii true true false true true false true false)
+                                   (String.String (Ascii.Ascii false false false false true true false false)
+                                      (String.String (Ascii.Ascii true false true true true false true false)
+                                         (String.String (Ascii.Ascii false true true true false true false false)
+                                            (String.String (Ascii.Ascii true true true false false true true false)
+                                               (String.String (Ascii.Ascii false true false false true true true false)
+                                                  (String.String
+                                                     (Ascii.Ascii true false false true false true true false)
+                                                     (String.String
+                                                        (Ascii.Ascii false false true false false true true false)
+                                                        String.EmptyString))))))))))))))));
+        (String.String (Ascii.Ascii false false false true true true true false)
+           (String.String (Ascii.Ascii true true true false false true true false)
+              (String.String (Ascii.Ascii false true false false true true true false)
+                 (String.String (Ascii.Ascii true false false false false true true false)
+                    (String.String (Ascii.Ascii false false true false false true true false) String.EmptyString)))),
+         String.String (Ascii.Ascii true true true false false true true false)
+           (String.String (Ascii.Ascii false true false false true true true false)
+              (String.String (Ascii.Ascii true false false false false true true false)
+                 (String.String (Ascii.Ascii false false true false false true true false)
+                    (String.String (Ascii.Ascii true false false true false true true false)
+                       (String.String (Ascii.Ascii true false true false false true true false)
+                          (String.String (Ascii.Ascii false true true true false true true false)
+                             (String.String (Ascii.Ascii false false true false true true true false)
+                                (String.String (Ascii.Ascii true true false true true false true false)
+                                   (String.String (Ascii.Ascii true false false false true true false false)
+                                      (String.String (Ascii.Ascii true false true true true false true false)
+                                         (String.String (Ascii.Ascii false true true true false true false false)
+                                            (String.String (Ascii.Ascii true true true false false true true false)
+                                               (String.String (Ascii.Ascii false true false false true true true false)
+                                                  (String.String
+                                                     (Ascii.Ascii true false false true false true true false)
+                                                     (String.String
+                                                        (Ascii.Ascii false false true false false true true false)
+                                                        String.EmptyString))))))))))))))));
+        (String.String (Ascii.Ascii false false false false true true true false) String.EmptyString,
+         String.String (Ascii.Ascii false true true true false true true false)
+           (String.String (Ascii.Ascii false false false false true true true false)
+              (String.String (Ascii.Ascii false true true true false true false false)
+                 (String.String (Ascii.Ascii true false false false false true true false)
+                    (String.String (Ascii.Ascii true true false false true true true false)
+                       (String.String (Ascii.Ascii true false false false false true true false)
+                          (String.String (Ascii.Ascii false true false false true true true false)
+                             (String.String (Ascii.Ascii false true false false true true true false)
+                                (String.String (Ascii.Ascii true false false false false true true false)
+                                   (String.String (Ascii.Ascii true false false true true true true false)
+                                      (String.String (Ascii.Ascii false false false true false true false false)
+                                         (String.String (Ascii.Ascii false false false false true true true false)
+                                            (String.String (Ascii.Ascii true true true true false true true false)
+                                               (String.String (Ascii.Ascii true false false true false true true false)
+                                                  (String.String
+                                                     (Ascii.Ascii false true true true false true true false)
+                                                     (String.String
+                                                        (Ascii.Ascii false false true false true true true false)
+                                                        (String.String
+                                                           (Ascii.Ascii true true false false true true true false)
+                                                           (String.String
+                                                              (Ascii.Ascii false false true true false true false false)
+                                                              (String.String
+                                                                 (Ascii.Ascii false false false false false true false
+                                                                    false)
+                                                                 (String.String
+                                                                    (Ascii.Ascii false false true false false true true
+                                                                       false)
+                                                                    (String.String
+                                                                       (Ascii.Ascii false false true false true true
+                                                                          true false)
+                                                                       (String.String
+                                                                          (Ascii.Ascii true false false true true true
+                                                                             true false)
+                                                                          (String.String
+                                                                             (Ascii.Ascii false false false false true
+                                                                                true true false)
+                                                                             (String.String
+                                                                                (Ascii.Ascii true false true false
+                                                                                   false true true false)
+                                                                                (String.String
+                                                                                   (Ascii.Ascii true false true true
+                                                                                      true true false false)
+                                                                                   (String.String
+                                                                                      (Ascii.Ascii false true true true
+                                                                                         false true true false)
+                                                                                      (String.String
+                                                                                         (Ascii.Ascii false false false
+                                                                                          false true true true false)
+                                                                                         (String.String
+                                                                                          (Ascii.Ascii false true true
+                                                                                          true false true false false)
+                                                                                          (String.String
+                                                                                          (Ascii.Ascii false true true
+                                                                                          false false true true false)
+                                                                                          (String.String
+                                                                                          (Ascii.Ascii false false true
+                                                                                          true false true true false)
+                                                                                          (String.String
+                                                                                          (Ascii.Ascii true true true
+                                                                                          true false true true false)
+                                                                                          (String.String
+                                                                                          (Ascii.Ascii true false false
+                                                                                          false false true true false)
+                                                                                          (String.String
+                                                                                          (Ascii.Ascii false false true
+                                                                                          false true true true false)
+                                                                                          (String.String
+                                                                                          (Ascii.Ascii false true true
+                                                                                          false true true false false)
+                                                                                          (String.String
+                                                                                          (Ascii.Ascii false false true
+                                                                                          false true true false false)
+                                                                                          (String.String
+                                                                                          (Ascii.Ascii true false false
+                                                                                          true false true false false)
+                                                                                          String.EmptyString))))))))))))))))))))))))))))))))))));
+        (String.String (Ascii.Ascii true true false false true true true false)
+           (String.String (Ascii.Ascii false true false false true true true false)
+              (String.String (Ascii.Ascii true true false false false true true false) String.EmptyString)),
+         String.String (Ascii.Ascii true true false false true true true false)
+           (String.String (Ascii.Ascii true false true false false true true false)
+              (String.String (Ascii.Ascii false false true true false true true false)
+                 (String.String (Ascii.Ascii false true true false false true true false)
+                    (String.String (Ascii.Ascii false true true true false true false false)
+                       (String.String (Ascii.Ascii true true true true true false true false)
+                          (String.String (Ascii.Ascii true true false false true true true false)
+                             (String.String (Ascii.Ascii true true true true false true true false)
+                                (String.String (Ascii.Ascii true false true false true true true false)
+                                   (String.String (Ascii.Ascii false true false false true true true false)
+                                      (String.String (Ascii.Ascii true true false false false true true false)
+                                         (String.String (Ascii.Ascii true false true false false true true false)
+                                            String.EmptyString))))))))))));
+        (String.String (Ascii.Ascii true true false false true true true false)
+           (String.String (Ascii.Ascii false false true false true true true false)
+              (String.String (Ascii.Ascii true false true false false true true false)
+                 (String.String (Ascii.Ascii false false false false true true true false)
+                    (String.String (Ascii.Ascii true true false false true true true false)
+                       (String.String (Ascii.Ascii true false false true false true true false)
+                          (String.String (Ascii.Ascii false true false true true true true false)
+                             (String.String (Ascii.Ascii true false true false false true true false)
+                                String.EmptyString))))))),
+         String.String (Ascii.Ascii true true false false true true true false)
+           (String.String (Ascii.Ascii false false true false true true true false)
+              (String.String (Ascii.Ascii true false true false false true true false)
+                 (String.String (Ascii.Ascii false false false false true true true false)
+                    (String.String (Ascii.Ascii true true false false true true true false)
+                       (String.String (Ascii.Ascii true false false true false true true false)
+                          (String.String (Ascii.Ascii false true false true true true true false)
+                             (String.String (Ascii.Ascii true false true false false true true false)
+                                String.EmptyString))))))));
+        (String.String (Ascii.Ascii true false true true false true true false)
+           (String.String (Ascii.Ascii true false false false false true true false)
+              (String.String (Ascii.Ascii false false false true true true true false)
+                 (String.String (Ascii.Ascii true true true true true false true false)
+                    (String.String (Ascii.Ascii true true false false true true true false)
+                       (String.String (Ascii.Ascii false false true false true true true false)
+                          (String.String (Ascii.Ascii true false true false false true true false)
+                             (String.String (Ascii.Ascii false false false false true true true false)
+                                String.EmptyString))))))),
+         String.String (Ascii.Ascii true false true true false true true false)
+           (String.String (Ascii.Ascii true false false false false true true false)
+              (String.String (Ascii.Ascii false false false true true true true false)
+                 (String.String (Ascii.Ascii true true true true true false true false)
+                    (String.String (Ascii.Ascii true true false false true true true false)
+                       (String.String (Ascii.Ascii false false true false true true true false)
+                          (String.String (Ascii.Ascii true false true false false true true false)
+                             (String.String (Ascii.Ascii false false false false true true true false)
+                                String.EmptyString))))))));
+        (String.String (Ascii.Ascii false false false true false true true false)
+           (String.String (Ascii.Ascii true true true true false true true false)
+              (String.String (Ascii.Ascii false true true true false true true false)
+                 (String.String (Ascii.Ascii true true true true false true true false)
+                    (String.String (Ascii.Ascii false true false false true true true false)
+                       (String.String (Ascii.Ascii true true true true true false true false)
+                          (String.String (Ascii.Ascii true true true false false true true false)
+                             (String.String (Ascii.Ascii false true false false true true true false)
+                                (String.String (Ascii.Ascii true false false true false true true false)
+                                   (String.String (Ascii.Ascii false false true false false true true false)
+                                      String.EmptyString))))))))),
+         String.String (Ascii.Ascii false false false true false true true false)
+           (String.String (Ascii.Ascii true true true true false true true false)
+              (String.String (Ascii.Ascii false true true true false true true false)
+                 (String.String (Ascii.Ascii true true true true false true true false)
+                    (String.String (Ascii.Ascii false true false false true true true false)
+                       (String.String (Ascii.Ascii true true true true true false true false)
+                          (String.String (Ascii.Ascii true true true false false true true false)
+                             (String.String (Ascii.Ascii false true false false true true true false)
+                                (String.String (Ascii.Ascii true false false true false true true false)
+                                   (String.String (Ascii.Ascii false false true false false true true false)
+                                      String.EmptyString))))))))))] /\
+       map fst ApiGen.raytrace_2d_binding = ApiGen.ray2d_params /\
+       map snd ApiGen.raytrace_2d_binding = snd ApiGen.raytrace_2d_call.
+Proof. exact @ApiGenEq.gen_raytrace_2d_call. Qed.
+
+(* 3D *)
+Theorem C10_raytrace_call_wiring_3d :
+  ApiGen.raytrace_3d_call =
+       (String.String (Ascii.Ascii false true false false true true true false)
+          (String.String (Ascii.Ascii true false false false false true true false)
+             (String.String (Ascii.Ascii true false false true true true true false)
+                (String.String (Ascii.Ascii true true false false true true false false)
+                   (String.String (Ascii.Ascii false false true false false true true false) String.EmptyString)))),
+        [String.String (Ascii.Ascii true true false false true true true false)
+           (String.String (Ascii.Ascii true false true false false true true false)
+              (String.String (Ascii.Ascii false false true true false true true false)
+                 (String.String (Ascii.Ascii false true true false false true true false)
+                    (String.String (Ascii.Ascii false true true true false true false false)
+                       (String.String (Ascii.Ascii false true false true true true true false)
+                          (String.String (Ascii.Ascii true false false false false true true false)
+                             (String.String (Ascii.Ascii false false false true true true true false)
+                                (String.String (Ascii.Ascii true false false true false true true false)
+                                   (String.String (Ascii.Ascii true true false false true true true false)
+                                      String.EmptyString)))))))));
+         String.String (Ascii.Ascii true true false false true true true false)
+           (String.String (Ascii.Ascii true false true false false true true false)
+              (String.String (Ascii.Ascii false false true true false true true false)
+                 (String.String (Ascii.Ascii false true true false false true true false)
+                    (String.String (Ascii.Ascii false true true true false true false false)
+                       (String.String (Ascii.Ascii false false false true true true true false)
+                          (String.String (Ascii.Ascii true false false false false true true false)
+                             (String.String (Ascii.Ascii false false false true true true true false)
+                                (String.String (Ascii.Ascii true false false true false true true false)
+                                   (String.String (Ascii.Ascii true true false false true true true false)
+                                      String.EmptyString)))))))));
+         String.String (Ascii.Ascii true true false false true true true false)
+           (String.String (Ascii.Ascii true false true false false true true false)
+              (String.String (Ascii.Ascii false false true true false true true false)
+                 (String.String (Ascii.Ascii false true true false false true true false)
+                    (String.String (Ascii.Ascii false true true true false true false false)
+                       (String.String (Ascii.Ascii true false false true true true true false)
+                          (String.String (Ascii.Ascii true false false false false true true false)
+                             (String.String (Ascii.Ascii false false false true true true true false)
+                                (String.String (Ascii.Ascii true false false true false true true false)
+                                   (String.String (Ascii.Ascii true true false false true true true false)
+                                      String.EmptyString)))))))));
+         String.String (Ascii.Ascii true true true false false true true false)
+           (String.String (Ascii.Ascii false true false false true true true false)
+              (String.String (Ascii.Ascii true false false false false true true false)
+                 (String.String (Ascii.Ascii false false true false false true true false)
+                    (String.String (Ascii.Ascii true false false true false true true false)
+                       (String.String (Ascii.Ascii true false true false false true true false)
+                          (String.String (Ascii.Ascii false true true true false true true false)
+                             (String.String (Ascii.Ascii false false true false true true true false)
+                                (String.String (Ascii.Ascii true true false true true false true false)
+                                   (String.String (Ascii.Ascii false false false false true true false false)
+                                      (String.String (Ascii.Ascii true false true true true false true false)
+                                         (String.String (Ascii.Ascii false true true true false true false false)
+                                            (String.String (Ascii.Ascii true true true false false true true false)
+                                               (String.String (Ascii.Ascii false true false false true true true false)
+                                                  (String.String
+                                                     (Ascii.Ascii true false false true false true true false)
+                                                     (String.String
+                                                        (Ascii.Ascii false false true false false true true false)
+                                                        String.EmptyString)))))))))))))));
+         String.String (Ascii.Ascii true true true false false true true false)
+           (String.String (Ascii.Ascii false true false false true true true false)
+              (String.String (Ascii.Ascii true false false false false true true false)
+                 (String.String (Ascii.Ascii false false true false false true true false)
+                    (String.String (Ascii.Ascii true false false true false true true false)
+                       (String.String (Ascii.Ascii true false true false false true true false)
+                          (String.String (Ascii.Ascii false true true true false true true false)
+                             (String.String (Ascii.Ascii false false true false true true true false)
+                                (String.String (Ascii.Ascii true true false true true false true false)
+                                   (String.String (Ascii.Ascii true false false false true true false false)
+                                      (String.String (Ascii.Ascii true false true true true false true false)
+                                         (String.String (Ascii.Ascii false true true true false true false false)
+                                            (String.String (Ascii.Ascii true true true false false true true false)
+                                               (String.String (Ascii.Ascii false true false false true true true false)
+                                                  (String.String
+                                                     (Ascii.Ascii true false false true false true true false)
+                                                     (String.String
+                                                        (Ascii.Ascii false false true false false true true false)
+                                                        String.EmptyString)))))))))))))));
+         String.String (Ascii.Ascii true true true false false true true false)
+           (String.String (Ascii.Ascii false true false false true true true false)
+              (String.String (Ascii.Ascii true false false false false true true false)
+                 (String.String (Ascii.Ascii false false true false false true true false)
+                    (String.String (Ascii.Ascii true false false true false true true false)
+                       (String.String (Ascii.Ascii true false true false false true true false)
+                          (String.String (Ascii.Ascii false true true true false true true false)
+                             (String.String (Ascii.Ascii false false true false true true true false)
+                                (String.String (Ascii.Ascii true true false true true false true false)
+                                   (String.String (Ascii.Ascii false true false false true true false false)
+                                      (String.String (Ascii.Ascii true false true true true false true false)
+                                         (String.String (Ascii.Ascii false true true true false true false false)
+                                            (String.String (Ascii.Ascii true true true false false true true false)
+                                               (String.String (Ascii.Ascii false true false false true true true false)
+                                                  (String.String
+                                                     (Ascii.Ascii true false false true false true true false)
+                                                     (String.String
+                                                        (Ascii.Ascii false false true false false true true false)
+                                                        String.EmptyString)))))))))))))));
+         String.String (Ascii.Ascii false true true true false true true false)
+           (String.String (Ascii.Ascii false false false false true true true false)
+              (String.String (Ascii.Ascii false true true true false true false false)
+                 (String.String (Ascii.Ascii true false false false false true true false)
+                    (String.String (Ascii.Ascii true true false false true true true false)
+                       (String.String (Ascii.Ascii true false false false false true true false)
+                          (String.String (Ascii.Ascii false true false false true true true false)
+                             (String.String (Ascii.Ascii false true false false true true true false)
+                                (String.String (Ascii.Ascii true false false false false true true false)
+                                   (String.String (Ascii.Ascii true false false true true true true false)
+                                      (String.String (Ascii.Ascii false false false true false true false false)
+                                         (String.String (Ascii.Ascii false false false false true true true false)
+                                            (String.String (Ascii.Ascii true true true true false true true false)
+                                               (String.String (Ascii.Ascii true false false true false true true false)
+                                                  (String.String
+                                                     (Ascii.Ascii false true true true false true true false)
+                                                     (String.String
+                                                        (Ascii.Ascii false false true false true true true false)
+                                                        (String.String
+                                                           (Ascii.Ascii true true false false true true true false)
+                                                           (String.String
+                                                              (Ascii.Ascii false false true true false true false false)
+                                                              (String.String
+                                                                 (Ascii.Ascii false false false false false true false
+                                                                    false)
+                                                                 (String.String
+                                                                    (Ascii.Ascii false false true false false true true
+                                                                       false)
+                                                                    (String.String
+                                                                       (Ascii.Ascii false false true false true true
+                                                                          true false)
+                                                                       (String.String
+                                                                          (Ascii.Ascii true false false true true true
+                                                                             true false)
+                                                                          (String.String
+                                                                             (Ascii.Ascii false false false false true
+                                                                                true true false)
+                                                                             (String.String
+                                                                                (Ascii.Ascii true false true false
+                                                                                   false true true false)
+                                                                                (String.String
+                                                                                   (Ascii.Ascii true false true true
+                                                                                      true true false false)
+                                                                                   (String.String
+                                                                                      (Ascii.Ascii false true true true
+                                                                                         false true true false)
+                                                                                      (String.String
+                                                                                         (Ascii.Ascii false false false
+                                                                                          false true true true false)
+                                                                                         (String.String
+                                                                                          (Ascii.Ascii false true true
+                                                                                          true false true false false)
+                                                                                          (String.String
+                                                                                          (Ascii.Ascii false true true
+                                                                                          false false true true false)
+                                                                                          (String.String
+                                                                                          (Ascii.Ascii false false true
+                                                                                          true false true true false)
+                                                                                          (String.String
+                                                                                          (Ascii.Ascii true true true
+                                                                                          true false true true false)
+                                                                                          (String.String
+                                                                                          (Ascii.Ascii true false false
+                                                                                          false false true true false)
+                                                                                          (String.String
+                                                                                          (Ascii.Ascii false false true
+                                                                                          false true true true false)
+                                                                                          (String.String
+                                                                                          (Ascii.Ascii false true true
+                                                                                          false true true false false)
+                                                                                          (String.String
+                                                                                          (Ascii.Ascii false false true
+                                                                                          false true true false false)
+                                                                                          (String.String
+                                                                                          (Ascii.Ascii true false false
+                                                                                          true false true false false)
+                                                                                          String.EmptyString)))))))))))))))))))))))))))))))))));
+         String.String (Ascii.Ascii true true false false true true true false)
+           (String.String (Ascii.Ascii true false true false false true true false)
+              (String.String (Ascii.Ascii false false true true false true true false)
+                 (String.String (Ascii.Ascii false true true false false true true false)
+                    (String.String (Ascii.Ascii false true true true false true false false)
+                       (String.String (Ascii.Ascii true true true true true false true false)
+                          (String.String (Ascii.Ascii true true false false true true true false)
+                             (String.String (Ascii.Ascii true true true true false true true false)
+                                (String.String (Ascii.Ascii true false true false true true true false)
+                                   (String.String (Ascii.Ascii false true false false true true true false)
+                                      (String.String (Ascii.Ascii true true false false false true true false)
+                                         (String.String (Ascii.Ascii true false true false false true true false)
+                                            String.EmptyString)))))))))));
+         String.String (Ascii.Ascii true true false false true true true false)
+           (String.String (Ascii.Ascii false false true false true true true false)
+              (String.String (Ascii.Ascii true false true false false true true false)
+                 (String.String (Ascii.Ascii false false false false true true true false)
+                    (String.String (Ascii.Ascii true true false false true true true false)
+                       (String.String (Ascii.Ascii true false false true false true true false)
+                          (String.String (Ascii.Ascii false true false true true true true false)
+                             (String.String (Ascii.Ascii true false true false false true true false)
+                                String.EmptyString)))))));
+         String.String (Ascii.Ascii true false true true false true true false)
+           (String.String (Ascii.Ascii true false false false false true true false)
+              (String.String (Ascii.Ascii false false false true true true true false)
+                 (String.String (Ascii.Ascii true true true true true false true false)
+                    (String.String (Ascii.Ascii true true false false true true true false)
+                       (String.String (Ascii.Ascii false false true false true true true false)
+                          (String.String (Ascii.Ascii true false true false false true true false)
+                             (String.String (Ascii.Ascii false false false false true true true false)
+                                String.EmptyString)))))));
+         String.String (Ascii.Ascii false false false true false true true false)
+           (String.String (Ascii.Ascii true true true true false true true false)
+              (String.String (Ascii.Ascii false true true true false true true false)
+                 (String.String (Ascii.Ascii true true true true false true true false)
+                    (String.String (Ascii.Ascii false true false false true true true false)
+                       (String.String (Ascii.Ascii true true true true true false true false)
+                          (String.String (Ascii.Ascii true true true false false true true false)
+                             (String.String (Ascii.Ascii false true false false true true true false)
+                                (String.String (Ascii.Ascii true false false true false true true false)
+                                   (String.String (Ascii.Ascii false false true false false true true false)
+                                      String.EmptyString)))))))))]) /\
+       ApiGen.raytrace_3d_binding =
+       [(String.String (Ascii.Ascii false true false true true true true false) String.EmptyString,
+         String.String (Ascii.Ascii true true false false true true true false)
+           (String.String (Ascii.Ascii true false true false false true true false)
+              (String.String (Ascii.Ascii false false true true false true true false)
+                 (String.String (Ascii.Ascii false true true false false true true false)
+                    (String.String (Ascii.Ascii false true true true false true false false)
+                       (String.String (Ascii.Ascii false true false true true true true false)
+                          (String.String (Ascii.Ascii true false false false false true true false)
+                             (String.String (Ascii.Ascii false false false true true true true false)
+                                (String.String (Ascii.Ascii true false false true false true true false)
+                                   (String.String (Ascii.Ascii true true false false true true true false)
+                                      String.EmptyString))))))))));
+        (String.String (Ascii.Ascii false false false true true true true false) String.EmptyString,
+         String.String (Ascii.Ascii true true false false true true true false)
+           (String.String (Ascii.Ascii true false true false false true true false)
+              (String.String (Ascii.Ascii false false true true false true true false)
+                 (String.String (Ascii.Ascii false true true false false true true false)
+                    (String.String (Ascii.Ascii false true true true false true false false)
+                       (String.String (Ascii.Ascii false false false true true true true false)
+                          (String.String (Ascii.Ascii true false false false false true true false)
+                             (String.String (Ascii.Ascii false false false true true true true false)
+                                (String.String (Ascii.Ascii true false false true false true true false)
+                                   (String.String (Ascii.Ascii true true false false true true true false)
+                                      String.EmptyString))))))))));
+        (String.String (Ascii.Ascii true false false true true true true false) String.EmptyString,
+         String.String (Ascii.Ascii true true false false true true true false)
+           (String.String (Ascii.Ascii true false true false false true true false)
+              (String.String (Ascii.Ascii false false true true false true true false)
+                 (String.String (Ascii.Ascii false true true false false true true false)
+                    (String.String (Ascii.Ascii false true true true false true false false)
+                       (String.String (Ascii.Ascii true false false true true true true false)
+                          (String.String (Ascii.Ascii true false false false false true true false)
+                             (String.String (Ascii.Ascii false false false true true true true false)
+                                (String.String (Ascii.Ascii true false false true false true true false)
+                                   (String.String (Ascii.Ascii true true false false true true true false)
+                                      String.EmptyString))))))))));
+        (String.String (Ascii.Ascii false true false true true true true false)
+           (String.String (Ascii.Ascii true true true false false true true false)
+              (String.String (Ascii.Ascii false true false false true true true false)
+                 (String.String (Ascii.Ascii true false false false false true true false)
+                    (String.String (Ascii.Ascii false false true false false true true false) String.EmptyString)))),
+         String.String (Ascii.Ascii true true true false false true true false)
+           (String.String (Ascii.Ascii false true false false true true true false)
+              (String.String (Ascii.Ascii true false false false false true true false)
+                 (String.String (Ascii.Ascii false false true false false true true false)
+                    (String.String (Ascii.Ascii true false false true false true true false)
+                       (String.String (Ascii.Ascii true false true false false true true false)
+                          (String.String (Ascii.Ascii false true true true false true true false)
+                             (String.String (Ascii.Ascii false false true false true true true false)
+                                (String.String (Ascii.Ascii true true false true true false true false)
+                                   (String.String (Ascii.Ascii false false false false true true false false)
+                                      (String.String (Ascii.Ascii true false true true true false true false)
+                                         (String.String (Ascii.Ascii false true true true false true false false)
+                                            (String.String (Ascii.Ascii true true true false false true true false)
+                                               (String.String (Ascii.Ascii false true false false true true true false)
+                                                  (String.String
+                                                     (Ascii.Ascii true false false true false true true false)
+                                                     (String.String
+                                                        (Ascii.Ascii false false true false false true true false)
+                                                        String.EmptyString))))))))))))))));
+        (String.String (Ascii.Ascii false false false true true true true false)
+           (String.String (Ascii.Ascii true true true false false true true false)
+              (String.String (Ascii.Ascii false true false false true true true false)
+                 (String.String (Ascii.Ascii true false false false false true true false)
+                    (String.String (Ascii.Ascii false false true false false true true false) String.EmptyString)))),
+         String.String (Ascii.Ascii true true true false false true true false)
+           (String.String (Ascii.Ascii false true false false true true true false)
+              (String.String (Ascii.Ascii true false false false false true true false)
+                 (String.String (Ascii.Ascii false false true false false true true false)
+                    (String.String (Ascii.Ascii true false false true false true true false)
+                       (String.String (Ascii.Ascii true false true false false true true false)
+                          (String.String (Ascii.Ascii false true true true false true true false)
+                             (String.String (Ascii.Ascii false false true false true true true false)
+                                (String.String (Ascii.Ascii true true false true true false true false)
+                                   (String.String (Ascii.Ascii true false false false true true false false)
+                                      (String.String (Ascii.Ascii true false true true true false true false)
+                                         (String.String (Ascii.Ascii false true true true false true false false)
+                                            (String.String (Ascii.Ascii true true true false false true true false)
+                                               (String.String (Ascii.Ascii false true false false true true true false)
+                                                  (String.String
+                                                     (Ascii.Ascii true false false true false true true false)
+                                                     (String.String
+                                                        (Ascii.Ascii false false true false false true true false)
+                                                        String.EmptyString))))))))))))))));
+        (String.String (Ascii.Ascii true false false true true true true false)
+           (String.String (Ascii.Ascii true true true false false true true false)
+              (String.String (Ascii.Ascii false true false false true true true false)
+                 (String.String (Ascii.Ascii true false false false false true true false)
+                    (String.String (Ascii.Ascii false false true false false true true false) String.EmptyString)))),
+         String.String (Ascii.Ascii true true true false false true true false)
+           (String.String (Ascii.Ascii false true false false true true true false)
+              (String.String (Ascii.Ascii true false false false false true true false)
+                 (String.String (Ascii.Ascii false false true false false true true false)
+                    (String.String (Ascii.Ascii true false false true false true true false)
+                       (String.String (Ascii.Ascii true false true false false true true false)
+                          (String.String (Ascii.Ascii false true true true false true true false)
+                             (String.String (Ascii.Ascii false false true false true true true false)
+                                (String.String (Ascii.Ascii true true false true true false true false)
+                                   (String.String (Ascii.Ascii false true false false true true false false)
+                                      (String.String (Ascii.Ascii true false true true true false true false)
+                                         (String.String (Ascii.Ascii false true true true false true false false)
+                                            (String.String (Ascii.Ascii true true true false false true true false)
+                                               (String.String (Ascii.Ascii false true false false true true true false)
+                                                  (String.String
+                                                     (Ascii.Ascii true false false true false true true false)
+                                                     (String.String
+                                                        (Ascii.Ascii false false true false false true true false)
+                                                        String.EmptyString))))))))))))))));
+        (String.String (Ascii.Ascii false false false false true true true false) String.EmptyString,
+         String.String (Ascii.Ascii false true true true false true true false)
+           (String.String (Ascii.Ascii false false false false true true true false)
+              (String.String (Ascii.Ascii false true true true false true false false)
+                 (String.String (Ascii.Ascii true false false false false true true false)
+                    (String.String (Ascii.Ascii true true false false true true true false)
+                       (String.String (Ascii.Ascii true false false false false true true false)
+                          (String.String (Ascii.Ascii false true false false true true true false)
+                             (String.String (Ascii.Ascii false true false false true true true false)
+                                (String.String (Ascii.Ascii true false false false false true true false)
+                                   (String.String (Ascii.Ascii true false false true true true true false)
+                                      (String.String (Ascii.Ascii false false false true false true false false)
+                                         (String.String (Ascii.Ascii false false false false true true true false)
+                                            (String.String (Ascii.Ascii true true true true false true true false)
+                                               (String.String (Ascii.Ascii true false false true false true true false)
+                                                  (String.String
+                                                     (Ascii.Ascii false true true true false true true false)
+                                                     (String.String
+                                                        (Ascii.Ascii false false true false true true true false)
+                                                        (String.String
+                                                           (Ascii.Ascii true true false false true true true false)
+                                                           (String.String
+                                                              (Ascii.Ascii false false true true false true false false)
+                                                              (String.String
+                                                                 (Ascii.Ascii false false false false false true false
+                                                                    false)
+                                                                 (String.String
+                                                                    (Ascii.Ascii false false true false false true true
+                                                                       false)
+                                                                    (String.String
+                                                                       (Ascii.Ascii false false true false true true
+                                                                          true false)
+                                                                       (String.String
+                                                                          (Ascii.Ascii true false false true true true
+                                                                             true false)
+                                                                          (String.String
+                                                                             (Ascii.Ascii false false false false true
+                                                                                true true false)
+                                                                             (String.String
+                                                                                (Ascii.Ascii true false true false
+                                                                                   false true true false)
+                                                                                (String.String
+                                                                                   (Ascii.Ascii true false true true
+                                                                                      true true false false)
+                                                                                   (String.String
+                                                                                      (Ascii.Ascii false true true true
+                                                                                         false true true false)
+                                                                                      (String.String
+                                                                                         (Ascii.Ascii false false false
+                                                                                          false true true true false)
+                                                                                         (String.String
+                                                                                          (Ascii.Ascii false true true
+                                                                                          true false true false false)
+                                                                                          (String.String
+                                                                                          (Ascii.Ascii false true true
+                                                                                          false false true true false)
+                                                                                          (String.String
+                                                                                          (Ascii.Ascii false false true
+                                                                                          true false true true false)
+                                                                                          (String.String
+                                                                                          (Ascii.Ascii true true true
+                                                                                          true false true true false)
+                                                                                          (String.String
+                                                                                          (Ascii.Ascii true false false
+                                                                                          false false true true false)
+                                                                                          (String.String
+                                                                                          (Ascii.Ascii false false true
+                                                                                          false true true true false)
+                                                                                          (String.String
+                                                                                          (Ascii.Ascii false true true
+                                                                                          false true true false false)
+                                                                                          (String.String
+                                                                                          (Ascii.Ascii false false true
+                                                                                          false true true false false)
+                                                                                          (String.String
+                                                                                          (Ascii.Ascii true false false
+                                                                                          true false true false false)
+                                                                                          String.EmptyString))))))))))))))))))))))))))))))))))));
+        (String.String (Ascii.Ascii true true false false true true true false)
+           (String.String (Ascii.Ascii false true false false true true true false)
+              (String.String (Ascii.Ascii true true false false false true true false) String.EmptyString)),
+         String.String (Ascii.Ascii true true false false true true true false)
+           (String.String (Ascii.Ascii true false true false false true true false)
+              (String.String (Ascii.Ascii false false true true false true true false)
+                 (String.String (Ascii.Ascii false true true false false true true false)
+                    (String.String (Ascii.Ascii false true true true false true false false)
+                       (String.String (Ascii.Ascii true true true true true false true false)
+                          (String.String (Ascii.Ascii true true false false true true true false)
+                             (String.String (Ascii.Ascii true true true true false true true false)
+                                (String.String (Ascii.Ascii true false true false true true true false)
+                                   (String.String (Ascii.Ascii false true false false true true true false)
+                                      (String.String (Ascii.Ascii true true false false false true true false)
+                                         (String.String (Ascii.Ascii true false true false false true true false)
+                                            String.EmptyString))))))))))));
+        (String.String (Ascii.Ascii true true false false true true true false)
+           (String.String (Ascii.Ascii false false true false true true true false)
+              (String.String (Ascii.Ascii true false true false false true true false)
+                 (String.String (Ascii.Ascii false false false false true true true false)
+                    (String.String (Ascii.Ascii true true false false true true true false)
+                       (String.String (Ascii.Ascii true false false true false true true false)
+                          (String.String (Ascii.Ascii false true false true true true true false)
+                             (String.String (Ascii.Ascii true false true false false true true false)
+                                String.EmptyString))))))),
+         String.String (Ascii.Ascii true true false false true true true false)
+           (String.String (Ascii.Ascii false false true false true true true false)
+              (String.String (Ascii.Ascii true false true false false true true false)
+                 (String.String (Ascii.Ascii false false false false true true true false)
+                    (String.String (Ascii.Ascii true true false false true true true false)
+                       (String.String (Ascii.Ascii true false false true false true true false)
+                          (String.String (Ascii.Ascii false true false true true true true false)
+                             (String.String (Ascii.Ascii true false true false false true true false)
+                                String.EmptyString))))))));
+        (String.String (Ascii.Ascii true false true true false true true false)
+           (String.String (Ascii.Ascii true false false false false true true false)
+              (String.String (Ascii.Ascii false false false true true true true false)
+                 (String.String (Ascii.Ascii true true true true true false true false)
+                    (String.String (Ascii.Ascii true true false false true true true false)
+                       (String.String (Ascii.Ascii false false true false true true true false)
+                          (String.String (Ascii.Ascii true false true false false true true false)
+                             (String.String (Ascii.Ascii false false false false true true true false)
+                                String.EmptyString))))))),
+         String.String (Ascii.Ascii true false true true false true true false)
+           (String.String (Ascii.Ascii true false false false false true true false)
+              (String.String (Ascii.Ascii false false false true true true true false)
+                 (String.String (Ascii.Ascii true true true true true false true false)
+                    (String.String (Ascii.Ascii true true false false true true true false)
+                       (String.String (Ascii.Ascii false false true false true true true false)
+                          (String.String (Ascii.Ascii true false true false false true true false)
+                             (String.String (Ascii.Ascii false false false false true true true false)
+                                String.EmptyString))))))));
+        (String.String (Ascii.Ascii false false false true false true true false)
+           (String.String (Ascii.Ascii true true true true false true true false)
+              (String.String (Ascii.Ascii false true true true false true true false)
+                 (String.String (Ascii.Ascii true true true true false true true false)
+                    (String.String (Ascii.Ascii false true false false true true true false)
+                       (String.String (Ascii.Ascii true true true true true false true false)
+                          (String.String (Ascii.Ascii true true true false false true true false)
+                             (String.String (Ascii.Ascii false true false false true true true false)
+                                (String.String (Ascii.Ascii true false false true false true true false)
+                                   (String.String (Ascii.Ascii false false true false false true true false)
+                                      String.EmptyString))))))))),
+         String.String (Ascii.Ascii false false false true false true true false)
+           (String.String (Ascii.Ascii true true true true false true true false)
+              (String.String (Ascii.Ascii false true true true false true true false)
+                 (String.String (Ascii.Ascii true true true true false true true false)
+                    (String.String (Ascii.Ascii false true false false true true true false)
+                       (String.String (Ascii.Ascii true true true true true false true false)
+                          (String.String (Ascii.Ascii true true true false false true true false)
+                             (String.String (Ascii.Ascii false true false false true true true false)
+                                (String.String (Ascii.Ascii true false false true false true true false)
+                                   (String.String (Ascii.Ascii false false true false false true true false)
+                                      String.EmptyString))))))))))] /\
+       map fst ApiGen.raytrace_3d_binding = ApiGen.ray3d_params /\
+       map snd ApiGen.raytrace_3d_binding = snd ApiGen.raytrace_3d_call.
+Proof. exact @ApiGenEq.gen_raytrace_3d_call. Qed.
+
 Print Assumptions C10_terminates_within_budget_2d.
 Print Assumptions C10_terminates_within_budget_3d.
 Print Assumptions C10_count_range_2d.
@@ -202,3 +1204,13 @@ Print Assumptions C10_step_length_3d.
 Print Assumptions C10_last_segment_3d.
 Print Assumptions C10_returned_polyline_step_length_2d.
 Print Assumptions C10_last_segment_longer_than_a_step_witness.
+Print Assumptions C10_budget_does_not_change_the_ray_2d.
+Print Assumptions C10_budget_at_most_count_reports_exhaustion_2d.
+Print Assumptions C10_public_ray_budget_characterisation_2d.
+Print Assumptions C10_budget_does_not_change_the_ray_3d.
+Print Assumptions C10_budget_at_most_count_reports_exhaustion_3d.
+Print Assumptions C10_public_ray_budget_characterisation_3d.
+Print Assumptions C10_raytrace_defaults_2d.
+Print Assumptions C10_raytrace_defaults_3d.
+Print Assumptions C10_raytrace_call_wiring_2d.
+Print Assumptions C10_raytrace_call_wiring_3d.
